@@ -3,7 +3,12 @@
 A *scenario* is a table of generated process classes and callback bodies plus the classes instantiated at top level:
 
     scn = {'classes': [[step, ...], ...], 'cbs': [code, ...], 'top': [class index, ...], 'ext': [[pid, cb], ...], 'kills': [pid, ...],
-           'cancels': [tid, ...]}
+           'cancels': [tid, ...], 'cbraise': [cb index, ...]}
+    cbraise = [k, ...]: the callbacks that end with `raise Boom()` (an Exception): `ProcessCallback.run` catches it after
+           `_run_task` - hence the scope of the process - was left and calls the public hook `callback_excepted` of the process the
+           callback was scheduled on.  The generated classes override that hook to take the sample `h.callback_excepted` and nothing
+           else (the default implementation calls `fail()`: C03's subject).  Expected there: the *previous value* of the callback's
+           task, i.e. what the code that called `call_soon` observed at that moment (a task starts with a copy of its creator's context)
     kills = [pid, ...]: processes that the harness may kill() (instead of resuming them) while they are parked in WAITING
     cancels = [tid, ...]: tasks that the harness may `task.cancel()` (once per entry) between two callbacks, at a moment of its
            choice, while the task is suspended at an await point (a bare yield, the future of a WAITING process) or has not started;
@@ -16,6 +21,10 @@ A *scenario* is a table of generated process classes and callback bodies plus th
          | 'l<k>' self.launch(class k) | 'x<k>' Class_k(...).execute()  (re-entrant, nest_asyncio)
          | 'i<k>' child = Class_k(...); `try: await child.step_until_terminated()` in THIS task (the child's steps run in the
            awaiting task and context) `except (BaseBoom, CancelledError):` sample 'absorbed'; then sample 'iret' and carry on
+         | 'p<k>' `if creator is not None: creator.call_soon(cb k)`, then sample 'pcret'; creator = the process whose code (step or
+           callback) launched / executed / inline-awaited the process whose code is running (None for a top-level process).  The
+           callback belongs to the creator, its task inherits the context of the code that scheduled it: with the creator's step
+           still on the stack below (execute / inline await) the callback runs on [.., creator, .., me, creator]
 
 A *schedule* is a list of integers: at every decision of the event loop (outermost or nested inside an `execute()`), the
 harness lists the enabled operations (`tick <tid>` for every ready task in task-id order, then `resume <tid>` for every process
@@ -38,12 +47,20 @@ LIFECYCLE_HOOKS = ['on_create', 'on_entering', 'on_entered', 'on_exiting', 'on_r
                    'on_kill', 'on_killed', 'on_terminated', 'on_close']
 OUTPUT_HOOKS = ['on_output_emitting', 'on_output_emitted']
 # kinds of code points that the property puts inside the scope of their process (everything but lifecycle hooks)
-INSCOPE_KINDS = (['seg', 'aw', 'o', 'cbseg', 'cbaw', 'lret', 'xret', 'csret', 'uret', 'iret', 'absorbed']
+INSCOPE_KINDS = (['seg', 'aw', 'o', 'cbseg', 'cbaw', 'lret', 'xret', 'csret', 'pcret', 'uret', 'iret', 'absorbed']
                  + ['h.' + h for h in OUTPUT_HOOKS])
 
 
 class Boom(Exception):
     """the exception raised by a generated step that ends with 'raise'"""
+
+
+class CbBoom(Boom):
+    """raised by a generated callback that ends by raising; carries what the code that scheduled the callback observed"""
+
+    def __init__(self, base, prev):
+        super().__init__()
+        self.verif_base, self.verif_prev = base, prev
 
 
 class BaseBoom(BaseException):
@@ -188,14 +205,17 @@ class Run:
         self.interrupted = {}    # pid -> state value it was left in when a cancellation hit its step
         self.absorbed = []       # class names of what the `except` clauses of inline awaits absorbed
         self.max_inline = 0      # deepest chain of inline awaits in one task
+        self.n_on_creator = 0    # callbacks scheduled on the creator of the running process
         self.inline_depth = {}
         self.classes = [make_class(self, k) for k in range(len(scn['classes']))]
         self.loop = CtlLoop(self.decide)
 
     # -- observations
-    def rec(self, proc, kind, expect=None):
-        """(owner, kind, Process.current(), PROCESS_STACK, stack expected by the restore clause | None)"""
-        self.cur_obs.append((proc._verif_pid, kind, _pid_of(plumpy.Process.current()), read_stack(), expect))
+    def rec(self, proc, kind, expect=None, prev=None):
+        """(owner, kind, Process.current(), PROCESS_STACK, stack expected by the restore clause | None); for the kind
+        `h.callback_excepted` a sixth entry [previous value]: what the code that scheduled the callback observed"""
+        o = (proc._verif_pid, kind, _pid_of(plumpy.Process.current()), read_stack(), expect)
+        self.cur_obs.append(o + (prev,) if prev is not None else o)
 
     def instantiate(self, k, creator, launch_from=None):
         pid = len(self.procs)
@@ -396,6 +416,14 @@ def make_class(run, k):
             super().init()
             self._verif_constructed = True
 
+        def callback_excepted(self, _callback, exception, trace):
+            # public hook, called by ProcessCallback.run in the callback's task after `_run_task` (the scope) was left through
+            # the exception.  Sample only: the default implementation would call self.fail(..)
+            if isinstance(exception, CbBoom):
+                run.rec(self, 'h.callback_excepted', exception.verif_base, [exception.verif_prev])
+            else:   # never the case for generated programs on the unchanged code
+                run.rec(self, 'h.callback_excepted', None, ['?' + type(exception).__name__])
+
         @property
         def _verif_scope(self):
             b = getattr(self, '_verif_base', None)
@@ -445,14 +473,20 @@ def make_cb(run, proc, j):
     """to be passed to `proc.call_soon` at once: the task that call_soon creates is the next one"""
     code = run.scn['cbs'][j]
     base = read_stack()   # the context the callback's task inherits
+    prev = _pid_of(plumpy.Process.current())   # what the scheduling code observes (public API)
     expect = None if base is None else base + [proc._verif_pid]
     tid = run.loop._n_tasks
+    raising = j in run.scn.get('cbraise', ())
     if needs_async(code):
         async def cb():
             await interp_async(run, proc, code, 'cbseg', 'cbaw', expect, tid)
+            if raising:
+                raise CbBoom(base, prev)
     else:
         def cb():
             interp_sync(run, proc, code, 'cbseg', expect, tid)
+            if raising:
+                raise CbBoom(base, prev)
     return cb
 
 
@@ -466,6 +500,13 @@ def do_act(run, proc, act, expect, tid):
     elif act[0] == 'c':
         proc.call_soon(make_cb(run, proc, int(act[1:])))
         run.rec(proc, 'csret', expect)
+    elif act[0] == 'p':
+        par = run.creator.get(proc._verif_pid)
+        if par is not None:
+            target = run.procs[par]
+            run.n_on_creator += 1
+            target.call_soon(make_cb(run, target, int(act[1:])))   # the callback belongs to the creator; scheduled from MY code
+        run.rec(proc, 'pcret', expect)
     elif act[0] == 'l':
         child = run.instantiate(int(act[1:]), proc._verif_pid, launch_from=proc)
         run.set_stepper(child._verif_pid, run.loop._n_tasks - 1)
@@ -536,4 +577,4 @@ def run_impl(scn, schedule, seed=None, stop_at_end=False):
         err = f'{type(e).__name__}:{e}'[:200]
     return dict(chunks=r.chunks, finals=r.finals, taken=r.taken, creator=r.creator, error=err, max_nest=r.max_nest,
                 n_procs=len(r.procs), n_tasks=r.loop._n_tasks, class_of=r.class_of, killed=r.killed,
-                interrupted=r.interrupted, absorbed=r.absorbed, max_inline=r.max_inline)
+                interrupted=r.interrupted, absorbed=r.absorbed, max_inline=r.max_inline, n_on_creator=r.n_on_creator)
